@@ -313,40 +313,127 @@ def r_gen_pure(ck: Checker, rule: str = "R-GEN-PURE") -> None:
 
 
 
+TABLES = ("_TYPE_TO_CHILD_FIELDS", "_TYPE_TO_PROPS", "_TYPE_TO_ALL_FIELDS")
+
+
+def populate_summary(stmts: list[ast.stmt]) -> tuple[dict[str, dict[str, object]], list[str]]:
+    """Symbolic store of _populate_type_dicts along one path.  Values: "CH"/"PR" (the two results of
+    process_node_fields(cls, ASTNode)), ("merge", a, b) for {**a, **b}, "?" otherwise."""
+    env: dict[str, object] = {}
+    tables: dict[str, dict[str, object]] = {t: {} for t in TABLES}
+    problems: list[str] = []
+
+    def val(e: ast.expr) -> object:
+        if isinstance(e, ast.Name):
+            return env.get(e.id, "?")
+        if isinstance(e, ast.Subscript) and norm(e.value) in TABLES:
+            return tables[norm(e.value)].get(norm(e.slice), "?")
+        if isinstance(e, ast.Dict) and all(k is None for k in e.keys) and len(e.values) == 2:
+            return ("merge", val(e.values[0]), val(e.values[1]))
+        if isinstance(e, ast.BinOp) and isinstance(e.op, ast.BitOr):
+            return ("merge", val(e.left), val(e.right))
+        if isinstance(e, ast.Call) and dotted(e.func) == "dict" and len(e.args) == 1 and len(e.keywords) == 1 and e.keywords[0].arg is None:
+            return ("merge", val(e.args[0]), val(e.keywords[0].value))
+        if isinstance(e, ast.Call) and dotted(e.func) in ("MappingProxyType", "types.MappingProxyType", "dict") and len(e.args) == 1 and not e.keywords:
+            return val(e.args[0])
+        return "?"
+
+    def store(t: ast.expr, v: object) -> None:
+        if isinstance(t, ast.Name):
+            env[t.id] = v
+        elif isinstance(t, ast.Subscript) and norm(t.value) in TABLES:
+            tables[norm(t.value)][norm(t.slice)] = v
+        elif isinstance(t, ast.Subscript):
+            problems.append(f"store into {norm(t)[:40]}")
+
+    for st in stmts:
+        if not isinstance(st, (ast.Assign, ast.AnnAssign)) or st.value is None:
+            continue
+        targets = st.targets if isinstance(st, ast.Assign) else [st.target]
+        v = st.value
+        if isinstance(v, ast.Call) and dotted(v.func) == "process_node_fields":
+            if [norm(x) for x in v.args] != ["cls", "ASTNode"] or v.keywords:
+                problems.append(f"classifier called as {norm(v)[:60]}")
+            for t in targets:
+                if isinstance(t, ast.Tuple) and len(t.elts) == 2:
+                    store(t.elts[0], "CH")
+                    store(t.elts[1], "PR")
+                elif isinstance(t, ast.Name):
+                    env[t.id] = "PAIR"
+            continue
+        if isinstance(v, ast.Subscript) and isinstance(v.value, ast.Name) and env.get(v.value.id) == "PAIR" and isinstance(v.slice, ast.Constant):
+            for t in targets:
+                store(t, "CH" if v.slice.value == 0 else "PR" if v.slice.value == 1 else "?")
+            continue
+        if isinstance(v, ast.Name) and env.get(v.id) == "PAIR" and len(targets) == 1 and isinstance(targets[0], ast.Tuple) and len(targets[0].elts) == 2:
+            store(targets[0].elts[0], "CH")
+            store(targets[0].elts[1], "PR")
+            continue
+        for t in targets:
+            if isinstance(t, ast.Tuple) and isinstance(v, ast.Tuple) and len(t.elts) == len(v.elts):
+                vals = [val(x) for x in v.elts]
+                for tt, vv in zip(t.elts, vals):
+                    store(tt, vv)
+            else:
+                store(t, val(v))
+    return tables, problems
+
+
 def r_types_cache(ck: Checker, rule: str = "R-TYPES-CACHE") -> None:
     """The per-class field tables are computed for exactly the class asked for, on every path, by the authoritative classifier."""
     from ..dtree import decision_tree
+    from ..finite import k_none
 
     f = ck.repo.func("pyoak.types", "_populate_type_dicts")
     body = [st for st in f.node.body if not isinstance(st, (ast.Import, ast.ImportFrom)) and not (isinstance(st, ast.Expr) and isinstance(st.value, ast.Constant))]
     leaves = decision_tree(body, max_atoms=6)
     bad = []
-    tables = ("_TYPE_TO_CHILD_FIELDS", "_TYPE_TO_PROPS", "_TYPE_TO_ALL_FIELDS")
+    want = {"_TYPE_TO_CHILD_FIELDS": "CH", "_TYPE_TO_PROPS": "PR", "_TYPE_TO_ALL_FIELDS": ("merge", "CH", "PR")}
     for lf in leaves:
         if lf.outcome not in ("fall", "return"):
             bad.append(f"path leaves by {lf.outcome}")
             continue
-        st = [norm(x) for x in lf.stmts]
-        if "_TYPE_TO_CHILD_FIELDS[cls], _TYPE_TO_PROPS[cls] = process_node_fields(cls, ASTNode)" not in st:
-            bad.append(f"a path fills the tables without process_node_fields(cls, ASTNode) (condition {lf.assign or 'always'})")
-        allf = [x for x in st if x.startswith("_TYPE_TO_ALL_FIELDS[cls] =")]
-        if allf != ["_TYPE_TO_ALL_FIELDS[cls] = {**_TYPE_TO_CHILD_FIELDS[cls], **_TYPE_TO_PROPS[cls]}"]:
-            bad.append(f"all-fields table filled as {allf}")
-        for x in lf.stmts:
-            if isinstance(x, ast.Assign):
-                for t in x.targets:
-                    for sub in ([t] if not isinstance(t, ast.Tuple) else t.elts):
-                        if isinstance(sub, ast.Subscript) and norm(sub.value) in tables and norm(sub.slice) != "cls":
-                            bad.append(f"table keyed by {norm(sub.slice)}")
+        tables, problems = populate_summary(lf.stmts)
+        bad += problems
+        for t, exp in want.items():
+            got = tables[t]
+            if set(got) - {"cls"}:
+                bad.append(f"table keyed by {sorted(set(got) - {'cls'})[0]}")
+            if "cls" not in got:
+                bad.append(f"a path leaves {t}[cls] unfilled (condition {lf.assign or 'always'})")
+            elif got["cls"] != exp:
+                if got["cls"] == "?" or (isinstance(got["cls"], tuple) and "?" in got["cls"]):
+                    others = [norm(x)[:70] for x in lf.stmts if t in norm(x)]
+                    if not any("process_node_fields" in norm(x) for x in lf.stmts):
+                        bad.append(f"a path fills the tables without process_node_fields(cls, ASTNode) (condition {lf.assign or 'always'})")
+                    else:
+                        raise Unsupported(f"_populate_type_dicts: {t}[cls] filled by {others}", f.node)
+                else:
+                    bad.append(f"{t}[cls] is filled with {got['cls']} instead of {exp}")
     what = "_populate_type_dicts fills the three per-class tables from process_node_fields(cls, ASTNode) on every path (no sharing with a base class)"
     (ck.violation if bad else ck.holds)(rule, f, f.node, what, evaluations=len(leaves), **({"construct": f"_populate_type_dicts: {bad[0]}"} if bad else {}))
     for q, table in (("get_cls_all_fields", "_TYPE_TO_ALL_FIELDS"), ("get_cls_child_fields", "_TYPE_TO_CHILD_FIELDS"), ("get_cls_props", "_TYPE_TO_PROPS")):
         g = ck.repo.func("pyoak.types", q)
         b = [st for st in g.node.body if not (isinstance(st, ast.Expr) and isinstance(st.value, ast.Constant))]
+        cp = g.node.args.args[0].arg
         what = f"{q}(cls) populates on a miss and returns the table entry of exactly that class"
-        ok = len(b) == 2 and isinstance(b[0], ast.If) and norm(b[0].test) == f"cls not in {table}" and [norm(x) for x in b[0].body] == ["_populate_type_dicts(cls)"] \
-            and not b[0].orelse and norm(b[1]) == f"return {table}[cls]"
-        (ck.holds if ok else ck.violation)(rule, g, g.node, what, **({} if ok else {"construct": f"{q}: lookup/populate form not recognised or wrong"}))
+        k_in, k_get = f"in({cp},{table})", k_none(f"{table}.get({cp})")
+        gbad = None
+        gl = decision_tree(b, resolve=True)
+        for lf in gl:
+            if set(lf.assign) - {k_in, k_get}:
+                raise Unsupported(f"{q} decides on {sorted(lf.assign)}", g.node)
+            hit = lf.assign.get(k_in) if k_in in lf.assign else (not lf.assign[k_get] if k_get in lf.assign else None)
+            pops = [c for st in lf.stmts for c in ast.walk(st) if isinstance(c, ast.Call) and dotted(c.func) == "_populate_type_dicts"]
+            if hit is None:
+                gbad = "the table is not consulted"
+            elif hit and pops:
+                gbad = "re-populates on a hit"
+            elif not hit and not (len(pops) == 1 and [norm(x) for x in pops[0].args] == [cp]):
+                gbad = f"a miss does not populate the tables for {cp}"
+            if lf.outcome != "return" or lf.val() not in (f"{table}[{cp}]",) + ((f"{table}.get({cp})",) if hit else ()):
+                gbad = gbad or f"returns {lf.val()}"
+        (ck.holds if not gbad else ck.violation)(rule, g, g.node, what, **({"evaluations": len(gl)} if not gbad else {"construct": f"{q}: {gbad}"}))
 
 
 # --------------------------------------------------------------------------- order key / reinstall
